@@ -59,6 +59,9 @@ def case(kind, suite, sk, msg):
     return ("ok", MB.pop_prove(sk)), _call(S.PopProve, sk)
 
 
+M61 = 2 ** 61 - 1
+
+
 def task_outputs(a, env):
     """one key, all suites interleaved per message (one process, one call history)"""
     r = R("SkToPk/Sign/PopProve")
@@ -73,6 +76,15 @@ def task_outputs(a, env):
                 _call(C_.PopProve, bad)
     for skh in a["sks"]:
         sk = int(skh, 16)
+        # history: the key with equal hash() (sk +- (2^61 - 1)) is used first; results ignored
+        alt = sk + M61 if sk + M61 < R_ else sk - M61
+        if 0 < alt < R_:
+            for s_ in a["suites"]:
+                C_ = suite_cls(s_)
+                _call(C_.SkToPk, alt)
+                _call(C_.Sign, alt, msgs[a["mis"][0]] if a["mis"] else b"m")
+                if s_ == "pop":
+                    _call(C_.PopProve, alt)
         todo = [("pk", s, None) for s in a["suites"]]
         for mi in a["mis"]:
             todo += [("sign", s, mi) for s in a["suites"]]
